@@ -25,7 +25,11 @@ def signature(f):
     return "files %s %s" % (d.get("kind"), d.get("what", ""))
 
 
-def run(ctx):
+def replay_env(f, ctx):
+    return {"VERIF_FILES_TREE": tree_file(ctx)}
+
+
+def tree_file(ctx):
     res = ctx.tlc("MC_Files", "MC_Files_tree", coverage=False)
     tree = None
     for line in open(os.path.join(ctx.work, "MC_Files_tree.tlc.log")):
@@ -36,7 +40,11 @@ def run(ctx):
         raise Exception("tree not printed")
     tp = os.path.join(ctx.work, "tree.json")
     json.dump(tree, open(tp, "w"))
-    os.environ["VERIF_FILES_TREE"] = tp
+    return tp
+
+
+def run(ctx):
+    os.environ["VERIF_FILES_TREE"] = tree_file(ctx)
     if ctx.quick:
         ctx.tlc("MC_Files", "MC_Files_quick", replay="files", coverage=False)
         ctx.tlc("MC_Files", "MC_Files_refs_quick", replay="files", coverage=False)
